@@ -210,3 +210,94 @@ func H_C10_any_string_total() {
 	verifAssert(hExact(before, hSnapAny(root)), "tree-form reads do not modify the tree")
 	verifReach("end")
 }
+
+// keys that stress the splitting of a path: a key of one arbitrary multi-byte code point in a non-final
+// segment, and a tree that really has a field under the empty-string key (a path with an empty segment
+// still cannot be followed: the property's keys are non-empty)
+func H_C10_special_keys() {
+	r := nondetRune()
+	verifAssume(verifAnd(r >= 0x80, r <= 0x10FFFF))
+	verifAssume(verifOr(r < 0xD800, r > 0xDFFF))
+	mk := string(r)
+	x, y := nondetInt(), nondetInt()
+	inner := NewObject("b", x, "", y)
+	lst := NewList(NewObject("", x, "k", y), y)
+	root := NewObject(mk, inner, "l", lst, "", NewObject("b", y), "m"+mk+"n", NewList(x, y))
+	before := hSnapAny(root)
+	var p string
+	var want any
+	resolvable := true
+	switch nondetIntRange(0, 9) {
+	case 0:
+		p, want = "."+mk+".b", x
+	case 1:
+		p, want = ".m"+mk+"n#1", y
+	case 2:
+		p, want = ".l#0.k", y
+	case 3:
+		p, want = "."+mk, inner
+	case 4:
+		p, resolvable = ".", false
+	case 5:
+		p, resolvable = "."+mk+".", false
+	case 6:
+		p, resolvable = ".l#0.", false
+	case 7:
+		p, resolvable = "..b", false
+	case 8:
+		p, resolvable = ".l#0..k", false
+	default:
+		p, resolvable = "."+mk+"#0", false
+	}
+	ty, tp := hTypeOfTFAny(root, p)
+	verifAssert(!tp, "TypeOfTF never panics")
+	got, gp := hGetTFAny(root, p)
+	if resolvable {
+		verifAssert(!gp, "GetTF of a resolvable path does not panic")
+		if !gp {
+			if o, isO := want.(Object); isO {
+				verifAssert(ty == TypeObject && got == any(o), "GetTF returns what segment-by-segment Get returns (identical container / equal scalar)")
+			} else {
+				gi, isInt := got.(int)
+				verifAssert(ty == TypeInt && isInt && gi == want.(int), "GetTF returns what segment-by-segment Get returns (identical container / equal scalar)")
+			}
+		}
+	} else {
+		verifAssert(ty == TypeUndefined, "TypeOfTF of a path that cannot be followed is Undefined")
+		verifAssert(gp, "GetTF of a path that cannot be followed panics")
+	}
+	verifAssert(hExact(before, hSnapAny(root)), "tree-form reads do not modify the tree")
+	verifReach("end")
+}
+
+// very long decimal indices (around 2^63 and 2^64, where a hand-written digit loop wraps): far beyond
+// the count, hence Undefined / panic — also in a non-final segment
+func H_C10_huge_index() {
+	l := NewList(NewList(1, 2), 5, 6)
+	d := nondetByte()
+	verifAssume(verifAnd(d >= '0', d <= '9'))
+	var body string
+	switch nondetIntRange(0, 3) {
+	case 0:
+		body = "1844674407370955161" + string([]byte{d}) // 2^64 = 18446744073709551616
+	case 1:
+		body = "922337203685477580" + string([]byte{d}) // 2^63 = 9223372036854775808
+	case 2:
+		body = "3689348814741910323" + string([]byte{d}) // 2*2^64 + small
+	default:
+		body = "99999999999999999999" + string([]byte{d})
+	}
+	p := "#" + body
+	if nondetIntRange(0, 1) == 1 {
+		p = "#0#" + body
+	}
+	if nondetIntRange(0, 1) == 1 {
+		p = p + "#0"
+	}
+	ty, tp := hTypeOfTFAny(l, p)
+	verifAssert(!tp, "TypeOfTF never panics")
+	verifAssert(ty == TypeUndefined, "an index >= count is Undefined")
+	_, gp := hGetTFAny(l, p)
+	verifAssert(gp, "GetTF panics for an index >= count")
+	verifReach("end")
+}
